@@ -12,7 +12,7 @@ Verdict ==
   IF C.real.status # "ok" THEN C.real.status
   ELSE IF ~RootFirst(Tree, C.root) THEN "root-not-first"
   ELSE IF ~DefinedOnce(Tree) THEN "defined-twice"
-  ELSE IF ~AllRefsDefined(Tree) THEN "undefined-reference"
+  ELSE IF ~AllRefsDefinedBut(Tree, {C.userprods[i] : i \in 1..Len(C.userprods)}) THEN "undefined-reference"
   ELSE IF C.structure /\ ~SameAsSet(Tree, EbnfOf(C, C.root)) THEN "structure-differs"
   ELSE IF ~C.real.roundtrip THEN "print-parse-print-differs"
   ELSE "ok"
